@@ -87,7 +87,9 @@ Lemma c_rounds_congr : forall n ws h1 h2 s1 s2, length ws = n ->
 Proof.
   induction n as [n IH] using (well_founded_induction lt_wf).
   intros ws h1 h2 s1 s2 Hn E1 E2 R1 R2.
-  destruct ws as [|w1 [|w2 ws']]; try (cbn; repeat split; try assumption; unfold W64 in *; lia).
+  destruct ws as [|w1 [|w2 ws']].
+  { cbn [c_rounds rounds fst snd]. repeat split; try assumption; unfold W64 in *; lia. }
+  { cbn [c_rounds rounds fst snd]. repeat split; try assumption; unfold W64 in *; lia. }
   cbn [c_rounds rounds].
   destruct (c_round_congr h1 h2 (sext64 w1) (sext64 w2) s1 s2 w1 w2 E1 E2 (sext64_eqm w1) (sext64_eqm w2) R1 R2) as [A B].
   destruct (round_range s1 s2 w1 w2) as [RA RB].
